@@ -31,6 +31,7 @@ func init() {
 
 // observed handler ids besides app indices
 const (
+	idForeign = -4 // a recording handler of an app that is not below the directly served app
 	idDefault = -1 // no recording handler ran; the response is what DefaultErrorHandler would send (or root has no handler)
 	idNoneRan = -2 // no recording handler ran and the response does not look like the default handler's
 	idMulti   = -3 // more than one invocation
@@ -161,6 +162,16 @@ func judgeEval(ts *treeSpec, rq *reqSpec, s *slot, resp *drive.Resp, build int, 
 	status := resp.Status
 	a.events[uint64(s.raised)<<40|uint64(uint32(s.ep+1))<<8|uint64(s.epN&0xff)]++
 
+	if ts.inv != nil {
+		// view through a directly served app: recorded indices are those of the built tree
+		for k := 0; k < min(s.nH, 3); k++ {
+			if v, ok := ts.inv[s.hID[k]]; ok {
+				s.hID[k] = v
+			} else {
+				s.hID[k] = idForeign
+			}
+		}
+	}
 	hasErr := s.raised > 0 || s.epN == 0
 	if !hasErr {
 		a.noErr++
@@ -178,7 +189,7 @@ func judgeEval(ts *treeSpec, rq *reqSpec, s *slot, resp *drive.Resp, build int, 
 	pos := "framework"
 	if !framework {
 		kind = kindNames[s.plan.Kind]
-		pos = posClassOf(s.plan)
+		pos = posClassOf(rq.Plan)
 		if s.sfErr {
 			kind, pos = "sendfile-404", "endpoint-sendfile"
 		}
@@ -214,6 +225,9 @@ func judgeEval(ts *treeSpec, rq *reqSpec, s *slot, resp *drive.Resp, build int, 
 			same = "same-handler-twice"
 		}
 		a.add("C08|handler-count|multiple|"+same+"|"+src, fmt.Sprintf("%d error-handler invocations for one error (raised at %s)", s.nH, pos), base())
+	case s.nH == 1 && s.hID[0] == idForeign:
+		id = idNoneRan
+		a.add("C08|wrong-handler|handler-of-app-outside-served-app", "an app served directly had its error handled by an app it is mounted in", base())
 	case s.nH == 1:
 		id = s.hID[0]
 	default:
@@ -240,6 +254,9 @@ func judgeEval(ts *treeSpec, rq *reqSpec, s *slot, resp *drive.Resp, build int, 
 		if a.curBuild != build {
 			a.curBuild, a.curID, a.curSet = build, id, true
 		}
+	}
+	if id == idNoneRan && s.nH == 1 {
+		return
 	}
 	if framework && s.nH == 1 {
 		if fe, ok := s.hErr[0].(*fiber.Error); ok && fe.Code == 405 {
@@ -555,6 +572,10 @@ func conclude(ts *treeSpec, rq *reqSpec, a *ragg) []finding {
 		// input class whatever the relation of the handler that ran
 		bestRank, bestClass = 46, "error-after-sendfile-in-chain"
 	}
+	if ts.host != nil && bestClass != "" && bestRank != 45 {
+		// the request was served by a mounted app that is also served directly
+		bestClass = "mounted-app-served-directly:" + bestClass
+	}
 	// Two mounted apps with the same full mount path share one slot in fiber's path-keyed app
 	// list (one shadows the other): a separate root cause, named in the class.
 	if bestClass != "" {
@@ -620,7 +641,7 @@ func evalTree(e *ev.Env, ts *treeSpec, reqs []reqSpec, cfg evalCfg) []*ragg {
 			rq := &reqs[i]
 			dr := &drive.Req{Method: rq.Method, URI: rq.URI, Hdr: hdr}
 			for k := 0; k < cfg.per; k++ {
-				s.reset(rq.Plan)
+				s.reset(ts.slotPlan(rq.Plan))
 				fctx.Response.Reset()
 				resp := d.DoCtx(&fctx, dr)
 				judgeEval(ts, rq, s, resp, b, aggs[i])
@@ -664,7 +685,7 @@ func evalTreeRace(e *ev.Env, ts *treeSpec, reqs []reqSpec, cfg evalCfg, workers 
 						// different paths are in flight at the same time
 						i := (j + w*3) % len(reqs)
 						rq := &reqs[i]
-						s.reset(rq.Plan)
+						s.reset(ts.slotPlan(rq.Plan))
 						fctx.Response.Reset()
 						resp := d.DoCtx(&fctx, &drive.Req{Method: rq.Method, URI: rq.URI, Hdr: hdr})
 						judgeEval(ts, rq, s, resp, b, part[w][i])
@@ -695,9 +716,37 @@ func startDirect(e *ev.Env, ts *treeSpec, rec *recorder) (d *drive.Direct) {
 			e.Sample("startup-panic", map[string]any{"tree": ts.describe(), "panic": fmt.Sprint(r)})
 		}
 	}()
-	d = drive.NewDirect(build(ts, rec))
+	host, target := ts, 0
+	if ts.host != nil {
+		host, target = ts.host, ts.orig[0]
+	}
+	apps := build(host, rec)
 	e.Stat("builds", 1)
-	return d
+	if sub := host.ServeSub; sub > 0 {
+		// the mounted app is also started on its own, before or after the root; the one
+		// started first serves a request before the other is started
+		first, second := 0, sub
+		if host.SubFirst {
+			first, second = sub, 0
+		}
+		d1 := drive.NewDirect(apps[first])
+		rec.slots[0].reset(plan{App: -1})
+		d1.Do(&drive.Req{Method: "GET", URI: "/e", Hdr: []drive.H{{K: "X-Rid", V: "A"}}})
+		d2 := drive.NewDirect(apps[second])
+		if target == first {
+			return d1
+		}
+		return d2
+	}
+	return drive.NewDirect(apps[target])
+}
+
+// slotPlan is the plan the scripted handlers see: app indices of the built tree.
+func (ts *treeSpec) slotPlan(p plan) plan {
+	if ts.orig != nil && p.App >= 0 {
+		p.App = ts.orig[p.App]
+	}
+	return p
 }
 
 type evaluator func(ts *treeSpec, reqs []reqSpec) []*ragg
@@ -891,7 +940,7 @@ func (rn *runner) judgeTree(c *ev.Case, ts *treeSpec, reqs []reqSpec) map[string
 			n := rn.shrunk[f.sig]
 			rn.shrunk[f.sig]++
 			rn.mu.Unlock()
-			if n < 2 && !strings.HasPrefix(c.ID, "corpus:") {
+			if n < 2 && !strings.HasPrefix(c.ID, "corpus:") && ts.host == nil {
 				mt, mr := shrink(ts, *rq, f.sig, rn.evalf)
 				f.detail["min_tree"] = mt
 				f.detail["min_tree_text"] = mt.describe()
@@ -959,6 +1008,20 @@ func run(e *ev.Env) {
 		e.StatMax("max_apps", int64(len(ts.Apps)-1))
 		rn.trees++
 		rn.judgeTree(c, ts, reqs)
+		if ts.ServeSub > 0 {
+			// the same built tree seen through the mounted app that is also served directly
+			view := ts.subView(ts.ServeSub)
+			vreqs := make([]reqSpec, 15)
+			for i := range vreqs {
+				vreqs[i] = genReq(c.R, view)
+			}
+			e.Stat("trees_with_directly_served_sub_app", 1)
+			if ts.SubFirst {
+				e.Stat("trees_sub_app_started_before_root", 1)
+			}
+			e.Stat("apps_below_directly_served_app", int64(len(view.Apps)-1))
+			rn.judgeTree(c, view, vreqs)
+		}
 	})
 	finish(e, rn)
 }
@@ -1270,6 +1333,27 @@ func corpus(e *ev.Env, rn *runner) {
 		rn.judgeTree(c, ts, []reqSpec{get("/g/m/e", teapot(1, posEp)), get("/g/m/zz", none)})
 		ts = mkTree(hOK, appSpec{Parent: 0, Rel: "/g/m", Handler: hOK, NoSlash: true, ViaGroup: true, GrpSet: true, GrpPrefix: "", GrpMount: "/g/m", GrpMountGiven: true})
 		rn.judgeTree(c, ts, []reqSpec{get("/g/m/e", teapot(1, posEp)), get("/g/m/zz", none)})
+	})
+	// a mounted app that is also served directly (e.g. on an internal port): below it the
+	// handler is chosen by the same rule with the served app as the root, whichever of the
+	// two apps was started first and in whichever order the tree was put together
+	e.Corpus("mounted-app-served-directly", func(c *ev.Case) {
+		for _, bottomUp := range []bool{false, true} {
+			for _, subFirst := range []bool{false, true} {
+				for _, adminH := range []int{hNone, hOK} {
+					ts := mkTree(hOK, appSpec{Parent: 0, Rel: "/admin", Handler: adminH, Mw: true},
+						appSpec{Parent: 1, Rel: "/reports", Handler: hNone}, appSpec{Parent: 2, Rel: "/daily", Handler: hOK},
+						appSpec{Parent: 1, Rel: "/users", Handler: hFailPlain})
+					ts.BottomUp, ts.ServeSub, ts.SubFirst = bottomUp, 1, subFirst
+					rn.judgeTree(c, ts, []reqSpec{get("/admin/reports/daily/e", teapot(3, posEp)), get("/admin/reports/daily/zz", none),
+						get("/admin/reports/zz", none), get("/admin/users/zz", none), get("/admin/zz", none), get("/zz", none)})
+					view := ts.subView(1)
+					rn.judgeTree(c, view, []reqSpec{get("/reports/daily/e", teapot(2, posEp)), get("/reports/daily/zz", none),
+						get("/reports/daily/p", none), get("/reports/zz", none), get("/reports/e", teapot(1, posEp)),
+						get("/users/zz", none), get("/users/e", teapot(3, posEp)), get("/zz", none), get("/e", teapot(0, posMwPost))})
+				}
+			}
+		}
 	})
 	// control: disjoint prefixes, nested mounts, every position, every handler mode
 	e.Corpus("control-disjoint", func(c *ev.Case) {
